@@ -87,6 +87,31 @@ class FakeFS:
 
     replace = rename
 
+    # tempfile / shutil doubles (documented semantics)
+    def named_temporary_file(self, mode="w+b", buffering=-1, encoding=None, newline=None, suffix=None, prefix=None, dir=None, delete=True, **k):
+        d = str(dir) if dir is not None else "/TMPDIR-possibly-another-filesystem"
+        self.n_tmp = getattr(self, "n_tmp", 0) + 1
+        name = os.path.join(d, f"{prefix or 'tmp'}{self.n_tmp:04d}{suffix or ''}")
+        h = self.open(name, "wb")
+        h.name = name
+        return h
+
+    def move(self, src, dst, *a, **k):
+        """shutil.move: os.rename when source and destination are on one file system, otherwise copy (open dst for writing,
+        stream the data) and unlink the source. Different directories may be different file systems."""
+        src, dst = str(src), str(dst)
+        if os.path.dirname(src) == os.path.dirname(dst):
+            return self.rename(src, dst)
+        f = self.files[src]
+        self.trace.append(("open_w", dst))
+        self.files[dst] = FObj()
+        self.trace.append(("write", dst, NBYTES))
+        g = self.files[dst]
+        g.blob, g.total, g.written = f.blob, NBYTES, NBYTES
+        self.trace.append(("close", dst))
+        self.files.pop(src, None)
+        return dst
+
 
 class Handle:
     def __init__(self, fs, name, mode):
@@ -180,8 +205,11 @@ class io_doubles:
         sys.modules["dill"] = fake_dill()
         fake_os = types.SimpleNamespace(fsync=self.fs.fsync, rename=self.fs.rename, replace=self.fs.replace, path=os.path,
                                         remove=lambda p: self.fs.files.pop(str(p), None), fspath=os.fspath)
-        self.ctxs = [patched(core_mod, open=self.fs.open, os=fake_os, dill=sys.modules["dill"]),
-                     patched(sm_mod, open=self.fs.open, os=fake_os, dill=sys.modules["dill"])]
+        fake_tempfile = types.SimpleNamespace(NamedTemporaryFile=self.fs.named_temporary_file, gettempdir=lambda: "/TMPDIR-possibly-another-filesystem",
+                                              mkstemp=lambda *a, **k: (_ for _ in ()).throw(HarnessError("tempfile.mkstemp is not modelled")))
+        fake_shutil = types.SimpleNamespace(move=self.fs.move, copyfile=self.fs.move, copy=self.fs.move, copy2=self.fs.move)
+        self.ctxs = [patched(core_mod, open=self.fs.open, os=fake_os, dill=sys.modules["dill"], tempfile=fake_tempfile, shutil=fake_shutil),
+                     patched(sm_mod, open=self.fs.open, os=fake_os, dill=sys.modules["dill"], tempfile=fake_tempfile, shutil=fake_shutil)]
         for c in self.ctxs:
             c.__enter__()
 
@@ -483,14 +511,44 @@ def make_crash(old_exists):
             finally:
                 dill.dump = real_dump
                 os.fsync, os.rename, os.replace = real_fsync, real_rename, real_replace
-            status = "absent"
-            if os.path.exists(path):
+            def file_status():
+                if not os.path.exists(path):
+                    return "absent"
                 try:
-                    with real_open(path, "rb") as f:
-                        dill.load(f)
-                    status = "loadable"
-                except Exception as e:
-                    status = f"unloadable ({type(e).__name__})"
+                    with real_open(path, "rb") as f_:
+                        dill.load(f_)
+                    return "loadable"
+                except Exception as e_:
+                    return f"unloadable ({type(e_).__name__})"
+            status = file_status()
+            if not status.startswith("unloadable") and os.path.isdir("/dev/shm") and os.stat("/dev/shm").st_dev != os.stat(d).st_dev:
+                # second attempt: temporary files on another file system (TMPDIR=/dev/shm), where shutil.move degrades to copy + unlink;
+                # the process dies in the middle of that copy
+                import shutil as _sh
+                import tempfile as _tf
+                real_copyfile, old_tmp = _sh.copyfile, _tf.tempdir
+
+                def dying_copyfile(src, dst, *a, **k):
+                    with real_open(src, "rb") as fi, real_open(dst, "wb") as fo:
+                        data = fi.read()
+                        fo.write(data[: max(1, len(data) // 2)])
+                        fo.flush()
+                    raise Crash()
+                _sh.copyfile, _tf.tempdir = dying_copyfile, "/dev/shm"
+                try:
+                    try:
+                        A.save_state(path)
+                    except Crash:
+                        pass
+                finally:
+                    _sh.copyfile, _tf.tempdir = real_copyfile, old_tmp
+                    for fn in os.listdir("/dev/shm"):
+                        if fn.startswith("ps_final.state."):
+                            try:
+                                os.unlink(os.path.join("/dev/shm", fn))
+                            except OSError:
+                                pass
+                status = file_status() + " [TMPDIR on another file system, crash during shutil.move's copy]"
             return {"reproduced": status.startswith("unloadable"), "signature": "crash:truncated-file-under-final-name",
                     "payload": {"crash_before_operation": k, "bytes_fraction": b / NBYTES, "previous_checkpoint": old_exists, "status": status},
                     "what": f"process killed at I/O operation {k} of save_state (after {b}/{NBYTES} of the write), previous checkpoint present={old_exists}: "
@@ -668,6 +726,72 @@ def make_configs():
                       bounds="pool in {None, symbolic int in [1,4], pool object} x blobs on/off", theory="QF_LIA")
 
 
+def make_resave_after_replacement():
+    """one sampler object: checkpoint, get a different history loaded (rewind / resume from another file), checkpoint again:
+    the second file must hold the state that exists when it is written (no export cache survives the replacement)."""
+
+    def harness(ctx: PathCtx):
+        fs = FakeFS()
+        A, it, calls = sym_filled_sampler(ctx, 2, False, tag="p")
+        Bsrc, it2, calls2 = sym_filled_sampler(ctx, 2, False, tag="q")
+        base = Path(tempfile.gettempdir()) / "vf_c08"
+        with io_doubles(fs):
+            A.save_state(base / "ps_a.state")
+            Bsrc.save_state(base / "ps_b.state")
+            rs = np.random.get_state()
+            try:
+                A.load_state(base / "ps_b.state")
+            finally:
+                np.random.set_state(rs)
+            snap = snapshot(A.state)
+            A.save_state(base / "ps_c.state")
+            C = Sampler(_pt, _ll, n_dim=1, n_particles=2, clustering=False, random_state=7)
+            rs = np.random.get_state()
+            try:
+                C.load_state(base / "ps_c.state")
+            finally:
+                np.random.set_state(rs)
+        hc = []
+        for k in HISTORY_STATE_KEYS:
+            hc.append(z3.BoolVal(len(snap["hist"][k]) == len(C.state._history[k])))
+            hc += [val_eq_any(a, b) for a, b in zip(snap["hist"][k], C.state._history[k])]
+        ctx.check("second-checkpoint-holds-the-history-that-existed-when-it-was-written", z3.And(*hc))
+        ctx.check("second-checkpoint-holds-the-current-state", z3.And(*[val_eq_any(snap["cur"][k], C.state._current[k]) for k in CURRENT_STATE_KEYS]))
+        return None
+
+    def replay(m, label, v):
+        import dill
+        d = tempfile.mkdtemp(prefix="vf_c08s_")
+        try:
+            mk = lambda seed: Sampler(lambda u: u, lambda x: -0.5 * np.sum(((x - 0.5) / 0.2) ** 2, axis=1), n_dim=1, n_particles=8, vectorize=True,
+                                      clustering=False, random_state=seed, output_dir=d)
+            s0 = np.random.get_state()
+            A, B = mk(1), mk(2)
+            for smp, n in ((A, 4), (B, 2)):
+                smp._core._initialize_fresh()
+                for _ in range(n):
+                    smp.sample()
+            A.save_state(os.path.join(d, "a.state"))
+            B.save_state(os.path.join(d, "b.state"))
+            A.load_state(os.path.join(d, "b.state"))
+            A.save_state(os.path.join(d, "c.state"))
+            C = mk(3)
+            C.load_state(os.path.join(d, "c.state"))
+            np.random.set_state(s0)
+            la, lc = B.state.get_history_length(), C.state.get_history_length()
+            same = la == lc and all(np.array_equal(B.state.get_history("logl", index=i), C.state.get_history("logl", index=i)) for i in range(min(la, lc)))
+            return {"reproduced": not same, "signature": "restore:stale-history-after-replacement", "payload": {"expected_batches": la, "restored_batches": lc},
+                    "what": f"save, load a 2-iteration checkpoint into the same sampler, save again: the new checkpoint restores {lc} history batches, {la} existed when it was written"}
+        finally:
+            import shutil
+            shutil.rmtree(d, ignore_errors=True)
+
+    return Obligation("resave-after-replacement", harness, replay=replay,
+                      encodes=[core_mod.SamplerCore.save_sampler_state, core_mod.SamplerCore.load_sampler_state, sm_mod.StateManager.to_dict, sm_mod.StateManager.update_from_dict],
+                      bounds="two symbolic 2-batch states; save / load the other / save / load into a fresh sampler", theory="QF_LRA/LIA",
+                      stubs=["dill / file-system doubles"])
+
+
 def make_resume_target():
     """run(n_total=N2, resume_state_path=...) must pursue the target of *this* call (same postconditions as an uninterrupted run)."""
 
@@ -740,7 +864,8 @@ def make_resume_target():
 
 
 def obligations(tier):
-    obs = [make_restore(2, False), make_restore(1, True), make_crash(False), make_crash(True), make_configs(), make_resume_target()]
+    obs = [make_restore(2, False), make_restore(1, True), make_crash(False), make_crash(True), make_configs(), make_resume_target(),
+           make_resave_after_replacement()]
     if tier == "thorough":
         obs += [make_restore(3, True), make_restore(3, False)]
     return obs
